@@ -25,7 +25,7 @@ func init() {
 			"inside a macro the includer's variables are the macro's parameters",
 			"error texts are not compared, only error-vs-output",
 		},
-		quick: 1728 + 96 + 60 + 20 + 72 + 72 + 16000, thorough: 1728 + 96 + 60 + 20 + 72 + 72 + 400000, minQuick: 2500, minThorough: 15000,
+		quick: 1728 + 96 + 96 + 60 + 20 + 72 + 72 + 16000, thorough: 1728 + 96 + 96 + 60 + 20 + 72 + 72 + 400000, minQuick: 2500, minThorough: 15000,
 	}})
 }
 
@@ -36,6 +36,7 @@ func (allowAll) IsFilterAllowed(string) bool   { return true }
 func (allowAll) IsTagAllowed(string) bool      { return true }
 
 type c11Case struct {
+	inBranch                      int  // 1: what the included template sets and loops over sits in an else branch, 2: in an elseif branch, 3: in an if inside a for
 	extInc                        bool // the included template extends a layout and does its work inside a block
 	with, only, ignore, sandboxed bool
 	nameForm, placement, target   int
@@ -61,6 +62,19 @@ func (p *c11) build(c c11Case) (*mt.TmplSet, map[string]mt.Val) {
 	default: // same-named macro and block
 		incBody = append([]mt.Stmt{mt.Macro{Name: "mm", Body: []mt.Stmt{mt.T("MM-INC")}}}, incBody...)
 		incBody = append(incBody, mt.P(mt.MCall{Name: "mm"}), mt.Block{Name: "later", Body: []mt.Stmt{mt.T("LATER-INC")}}, mt.Set{Name: "w", E: mt.S("w-from-inc")})
+	}
+	if c.inBranch > 0 && c.overlap < 2 {
+		muts := incBody[len(probe("i")):]
+		var wrapped mt.Stmt
+		switch c.inBranch {
+		case 1:
+			wrapped = mt.If{Conds: []mt.Expr{mt.V("nosuchvar")}, Bodies: [][]mt.Stmt{{mt.T("then")}}, HasElse: true, Else: muts}
+		case 2:
+			wrapped = mt.If{Conds: []mt.Expr{mt.V("nosuchvar"), mt.V("a")}, Bodies: [][]mt.Stmt{{mt.T("then")}, muts}, HasElse: true, Else: []mt.Stmt{mt.T("else")}}
+		default:
+			wrapped = mt.For{Val: "once", Seq: mt.Arr{Items: []mt.Expr{mt.I(1)}}, Body: []mt.Stmt{mt.If{Conds: []mt.Expr{mt.V("a")}, Bodies: [][]mt.Stmt{muts}}}}
+		}
+		incBody = append(append([]mt.Stmt{}, probe("i")...), wrapped)
 	}
 	if c.target == 2 {
 		incBody = append(incBody, mt.T("<"), mt.Include{E: mt.S("inc2"), HasWith: true, WithKeys: []string{"q"}, WithVals: []mt.Expr{mt.S("q-for-inc2")}, Only: c.only}, mt.T(">"))
@@ -191,6 +205,13 @@ func (p *c11) Run(rec *core.Recorder, seed uint64, idx int, tier string) {
 		c := c11Case{extInc: true, with: idx&1 != 0, only: idx&2 != 0, placement: idx / 4 % 4, overlap: idx / 16 % 2, nameForm: idx / 32 % 3}
 		set, ctx := p.build(c)
 		p.check(rec, "included-template-extends", set, ctx, nil)
+		return
+	}
+	idx -= 96
+	if idx < 96 {
+		c := c11Case{inBranch: 1 + idx%3, with: idx/3&1 != 0, only: idx/6&1 != 0, placement: idx / 12 % 4, overlap: idx / 48 % 2}
+		set, ctx := p.build(c)
+		p.check(rec, "mutations-in-branches", set, ctx, nil)
 		return
 	}
 	idx -= 96
@@ -414,6 +435,9 @@ func (p *c11) Run(rec *core.Recorder, seed uint64, idx int, tier string) {
 	r := core.NewRand("C11", seed, idx)
 	c := c11Case{with: r.Bool(), only: r.Bool(), ignore: r.Bool(), sandboxed: r.P(1, 4), nameForm: r.Intn(3), placement: r.Intn(4), target: r.Intn(3), overlap: r.Intn(3)}
 	c.extInc = c.overlap < 2 && r.P(1, 4)
+	if r.P(1, 3) {
+		c.inBranch = 1 + r.Intn(3)
+	}
 	set, ctx := p.build(c)
 	// add a second include of a third template in main with different options
 	c2 := c11Case{with: r.Bool(), only: r.Bool(), ignore: true, nameForm: 0, target: r.Intn(2)}
